@@ -914,7 +914,10 @@ def dig64(obj) -> int:
 
 def _family(name, tier):
     q = tier == "quick"
-    if name == "delays":
+    if name in ("delays", "delays-ctl"):
+        # delays-ctl (thorough only): the quick-sized program set under an attached control surface
+        ctl_only = name == "delays-ctl"
+        q = q or ctl_only
         # one process, no futures: every yield form with a delay, yield from, every return form, hooks
         emits = ["one", "two", "later", "none"]
         leaf = [("delay", d) for d in (D0, DSUB, D1, DHALF, DBIG)] + \
@@ -948,9 +951,10 @@ def _family(name, tier):
                 for ret in ("two",):
                     for style, hooks in (("entity", "ctor"),):
                         A.append(((3, style, hooks, steps, ret),))
-        B = [((), (), "P", m) for m in ("auto", "end", "ctl")]
+        modes = ("ctl",) if ctl_only else (("auto", "end", "ctl") if q else ("auto", "end"))
+        B = [((), (), "P", m) for m in modes]
         return A, B, {"processes": 1, "steps<=": 3 if q else 4, "alphabet": len(alpha), "return_forms": rets,
-                      "hook/style configs": cfgs, "modes": ["auto", "end", "ctl"]}
+                      "hook/style configs": cfgs, "modes": list(modes)}
 
     if name.startswith("await"):
         # one process awaiting base futures + resolver entity; resolve instants before/at/after the awaits
@@ -985,6 +989,8 @@ def _family(name, tier):
         B = []
         for rs in full:
             for pre in ((), (0,)):
+                if pre and len(rs) > 2:
+                    continue  # pre-resolved futures are combined with <= 2 resolver actions
                 for order in ("P", "R"):
                     B.append((rs, pre, order, "auto"))
         B += [(rs, (), "P", "end") for rs in res_schedules(times[:3], (0, 1), 2)]
@@ -1043,10 +1049,10 @@ def _family(name, tier):
         if not q:
             # longer second process over the 9-letter core alphabet
             pairs.append((list(seqs(alpha(0, 1)[:9], 2, 1)), list(seqs(alpha(1, 0)[:9], 3, 3))))
-        for s0, s1 in pairs:
+        for k, (s0, s1) in enumerate(pairs):
             for a in s0:
                 for b in s1:
-                    for st1 in (0, 1):
+                    for st1 in ((0, 1) if k == 0 else (0,)):
                         A.append(((0, "entity", "ctor", a, "one"), (st1, "entity", "add", b, "none")))
         B = [((), (), "P", "auto")]
         for t in (0, 1, 2):
@@ -1054,7 +1060,9 @@ def _family(name, tier):
                 B.append((((t, f),), (), "R", "auto"))
         B.append((((1, 2), (1, 2)), (), "P", "end"))
         return A, B, {"processes": 2, "steps<=": [2, 2 if q else 3], "alphabet": len(alpha(0, 1)),
-                      "start_ns": [[0], [0, 1]], "resolver_actions<=": 1}
+                      "start_ns": [[0], [0, 1]], "resolver_actions<=": 1,
+                      "note": "thorough adds second-process scripts of exactly 3 steps over the 9-letter core "
+                              "alphabet (start 0 only)"}
     raise KeyError(name)
 
 
@@ -1158,7 +1166,7 @@ def main(tier, seed, only=None):
                            "each base future is yielded by at most one process at a time and used at most once per "
                            "combinator expression (documented single-consumer rule)",
                            "delay d corresponds to int(d*1e9) ns (Instant/Duration documentation)"])
-    for name in FAMILIES:
+    for name in FAMILIES + (["delays-ctl"] if tier != "quick" else []):
         if only and name not in only:
             continue
         run_family(run, name, tier, seed)
